@@ -1,6 +1,12 @@
 CHECK = {
-    "suites": [suite("fsm", "c01", 300, 3000, stdin=True)],
-    "lean_sources": ["ClusterVerif/Model/Pin.lean", "ClusterVerif/Model/C01.lean", "ClusterVerif/Spec/C01.lean"],
+    "suites": [
+        suite("fsm", "c01", 400, 6000, stdin=True),
+        suite("raft1", "c01", 0, 30, stdin=True, tiers=["thorough"], args=["-kind", "raft1"], timeout={"thorough": 900}),
+        suite("kill", "c01", 0, 16, stdin=True, tiers=["thorough"], args=["-kind", "kill"], timeout={"thorough": 900}),
+        suite("net", "c01", 0, 24, stdin=True, tiers=["thorough"], args=["-kind", "net"], timeout={"thorough": 900}),
+    ],
+    "lean_sources": ["ClusterVerif/Model/Pin.lean", "ClusterVerif/Model/C01.lean", "ClusterVerif/Spec/C01.lean",
+                     "ClusterVerif/Lemmas/C01.lean", "ClusterVerif/Lemmas/PinMap.lean"],
     "rule": "TBD",
     "trusted_base": [],
     "assumptions": [],
